@@ -22,7 +22,9 @@ MUTATORS = frozenset(
 PURE_CALLS = frozenset(
     "len isspace find rfind count startswith endswith strip lstrip rstrip join isinstance min max "
     "index isdigit isalpha isidentifier lower upper get keys values items hasattr getattr "
-    "frozenset tuple str int abs any all bool".split()
+    "frozenset tuple str int abs any all bool partial rpartial takewhile dropwhile map filter zip "
+    "enumerate reversed sorted list dict set sum iter chain islice itemgetter attrgetter repr format "
+    "splitlines split rsplit partition rpartition replace title capitalize count_iter_items".split()
 )
 NONNEG_CALLS = frozenset(("count_iter_items", "len"))
 
@@ -72,9 +74,9 @@ def simple_updates(s):
     return out
 
 
-def body_paths(stmts, upd=frozenset()):
+def body_paths(stmts, upd=()):
     """
-    yield (kind, updated-names) for each path through stmts.
+    yield (kind, tuple of simple statements executed) for each path through stmts.
     kind: fall | back (continue) | break | exit (return/raise)
     Inner loops contribute nothing (they may run zero times) except their return/raise exits.
     """
@@ -84,7 +86,7 @@ def body_paths(stmts, upd=frozenset()):
     s, rest = stmts[0], stmts[1:]
     if isinstance(s, ast.If):
         for br in (s.body, s.orelse):
-            for k, u in body_paths(br, upd | simple_updates(ast.Expr(s.test))):
+            for k, u in body_paths(br, upd + (ast.Expr(s.test),)):
                 if k == "fall":
                     for x in body_paths(rest, u):
                         yield x
@@ -121,8 +123,123 @@ def body_paths(stmts, upd=frozenset()):
         for x in body_paths(rest, upd):
             yield x
     else:
-        for x in body_paths(rest, upd | simple_updates(s)):
+        for x in body_paths(rest, upd + (s,)):
             yield x
+
+
+MAYBE_ZERO_CALLS = frozenset(("count_iter_items", "len", "count", "find", "index"))
+
+
+def _maybe_zero(e):
+    """an increment whose value may be zero (no guaranteed progress)"""
+    if isinstance(e, ast.Constant):
+        return e.value == 0
+    if isinstance(e, ast.Call) and call_name(e) in MAYBE_ZERO_CALLS:
+        return True
+    if isinstance(e, ast.BinOp) and isinstance(e.op, (ast.Sub, ast.Add)):
+        if any(isinstance(x, ast.Call) and call_name(x) in MAYBE_ZERO_CALLS for x in (e.left, e.right)):
+            return True
+    return False
+
+
+def really_changed(path_stmts, local_names=None):
+    """
+    Names whose value after one trip along this path may differ from their value after the
+    previous trip along it (structural progress):
+      * mutated objects (pop/append/..., del, subscript store, next(), passed to an impure call);
+      * `x += step` with a step that is not possibly zero;
+      * names whose last assignment on the path is self-referential, directly (`x = f(x)`) or
+        through a loop-carried cycle (`p = n + 1; n = s.find(c, p)`);
+      * names whose last assignment reads any of the above.
+    `q = xs[0]` with xs untouched on the path is NOT progress: next time round it yields the same q.
+    """
+    changed = set()
+    last_def = {}
+    for s in path_stmts:
+        for n in ast.walk(s):
+            if isinstance(n, ast.Call):
+                if (
+                    isinstance(n.func, ast.Attribute)
+                    and n.func.attr in MUTATORS
+                    and isinstance(n.func.value, ast.Name)
+                ):
+                    changed.add(n.func.value.id)
+                elif (
+                    isinstance(n.func, ast.Name)
+                    and n.func.id == "next"
+                    and n.args
+                    and isinstance(n.args[0], ast.Name)
+                ):
+                    changed.add(n.args[0].id)
+                elif call_name(n) not in PURE_CALLS and call_name(n) not in MAYBE_ZERO_CALLS:
+                    for a in list(n.args) + [k.value for k in n.keywords]:
+                        # an object handed to an unknown callee may be mutated by it; module-level
+                        # names (imported functions, constants) are not loop state
+                        if isinstance(a, ast.Name) and (local_names is None or a.id in local_names):
+                            changed.add(a.id)
+            elif isinstance(n, ast.NamedExpr):
+                changed.update(stored_names(n.target))
+        if isinstance(s, ast.Delete):
+            for t in s.targets:
+                root = t
+                while isinstance(root, (ast.Subscript, ast.Attribute)):
+                    root = root.value
+                if isinstance(root, ast.Name):
+                    changed.add(root.id)
+        if isinstance(s, (ast.Assign, ast.AnnAssign, ast.AugAssign)) and s.value is not None:
+            for t in s.targets if isinstance(s, ast.Assign) else [s.target]:
+                if isinstance(t, (ast.Subscript, ast.Attribute)):
+                    root = t
+                    while isinstance(root, (ast.Subscript, ast.Attribute)):
+                        root = root.value
+                    if isinstance(root, ast.Name):
+                        changed.add(root.id)
+                    continue
+                for nm in stored_names(t):
+                    last_def[nm] = s
+    reads = {}
+    for nm, s in last_def.items():
+        r = set(names_in(s.value))
+        if isinstance(s, ast.AugAssign):
+            if not _maybe_zero(s.value):
+                changed.add(nm)
+            # a possibly-zero step gives no self-reference credit
+        else:
+            if nm in r:
+                changed.add(nm)
+        reads[nm] = r
+    # loop-carried cycles among plainly assigned names
+    plain = {nm for nm, s in last_def.items() if not isinstance(s, ast.AugAssign)}
+    for nm in plain:
+        seen = set()
+        work = [x for x in reads[nm] if x in plain]
+        while work:
+            x = work.pop()
+            if x == nm:
+                changed.add(nm)
+                break
+            if x in seen:
+                continue
+            seen.add(x)
+            work.extend(y for y in reads[x] if y in plain)
+    progress = True
+    while progress:
+        progress = False
+        for nm in last_def:
+            if nm not in changed and (reads[nm] & changed):
+                changed.add(nm)
+                progress = True
+    return changed
+
+
+def walk_body(w):
+    """all nodes of the loop test and body (not the `else` clause, which runs after the loop)"""
+    yield w.test
+    for n in ast.walk(w.test):
+        yield n
+    for st in w.body:
+        for n in ast.walk(st):
+            yield n
 
 
 def exit_relevant(w):
@@ -156,7 +273,7 @@ def exit_relevant(w):
     changed = True
     while changed:
         changed = False
-        for n in ast.walk(w):
+        for n in walk_body(w):
             if isinstance(n, (ast.Assign, ast.AnnAssign, ast.AugAssign)) and n.value is not None:
                 tn = set()
                 for t in n.targets if isinstance(n, ast.Assign) else [n.target]:
@@ -186,15 +303,13 @@ def pure_expr(e):
     return True
 
 
-def analyse_while(w):
+def analyse_while(w, local_names=None):
     """returns dict describing the loop"""
     rel, gexprs = exit_relevant(w)
     body_assigned = set()
     mutated = set()
     defs = {}
-    for n in ast.walk(w):
-        if n is w:
-            continue
+    for n in walk_body(w):
         if isinstance(n, (ast.Assign, ast.AnnAssign, ast.AugAssign)):
             for t in n.targets if isinstance(n, ast.Assign) else [n.target]:
                 for nm in stored_names(t):
@@ -257,11 +372,12 @@ def analyse_while(w):
     tests_pure = all(pure_expr(g) for g in gexprs)
     bad = []
     n_paths = 0
-    for k, u in body_paths(w.body):
+    for k, path_stmts in body_paths(w.body):
         if k in ("fall", "back"):
             n_paths += 1
-            if not (u & prog):
-                bad.append(sorted(u))
+            ch = really_changed(path_stmts, local_names)
+            if not (ch & prog):
+                bad.append(sorted(ch))
     return {
         "exit_relevant": sorted(rel),
         "iteration_constant": sorted(const & rel),
@@ -275,11 +391,10 @@ def analyse_while(w):
 def variant(w):
     """recognised ranking idiom or None"""
     body_mut = set()
-    for n in ast.walk(w):
-        if n is not w:
-            pass
+    for n in ():
+        pass
     assigned = set()
-    for s in ast.walk(w):
+    for s in walk_body(w):
         if isinstance(s, ast.stmt) and s is not w:
             assigned |= simple_updates(s) if not isinstance(
                 s, (ast.If, ast.For, ast.While, ast.With, ast.Try)
@@ -309,7 +424,7 @@ def variant(w):
                             and m.func.attr in ("append", "extend", "insert", "appendleft")
                             and isinstance(m.func.value, ast.Name)
                             and m.func.value.id == cont
-                            for m in ast.walk(w)
+                            for m in walk_body(w)
                         )
                         if not grows:
                             return "unconditional {}.pop() on the tested container".format(cont)
@@ -321,7 +436,7 @@ def variant(w):
                 continue
             ups = [
                 n
-                for n in ast.walk(w)
+                for n in walk_body(w)
                 if isinstance(n, (ast.Assign, ast.AugAssign, ast.AnnAssign))
                 and v in set(
                     x
@@ -445,7 +560,7 @@ def run(ctx):
             if not isinstance(w, ast.While):
                 continue
             n_loops += 1
-            info = analyse_while(w)
+            info = analyse_while(w, f.locals)
             head = "while " + short(w.test, 80)
             stuck = info["stuck_paths"]
             if not info["tests_pure"]:
@@ -460,9 +575,9 @@ def run(ctx):
                 ok,
                 ""
                 if ok
-                else "no progress on a back-edge path: exit-relevant={} are all iteration-constant "
-                "(constant={}, progress-capable={}); a path to the back edge updates only {} -> the "
-                "loop repeats the same state forever once entered on that path".format(
+                else "no guaranteed progress on a back-edge path: exit-relevant={} "
+                "(constant={}, progress-capable={}); a path to the back edge is guaranteed to change only {} "
+                "-> the loop can repeat the same state forever on that path".format(
                     info["exit_relevant"],
                     info["iteration_constant"],
                     info["progress_capable"],
